@@ -408,3 +408,36 @@ pub fn run_render(tier: &str, seed: u64, out: &mut Out) {
         }
     }
 }
+
+/// C04: every attribute family x name spelling x element kind, observed end to end
+pub fn run_attrroute(_tier: &str, _seed: u64, out: &mut Out) {
+    let names = ["a", "my-prop", "myProp", "a-b-c", "data-my-key", "data-My-KEY", "x_y", "A-b", "a--b", "a-", "a-1", "data-", "data-a-bC",
+                 "id", "slot", "class", "style", "name", "tap", "touch-start", "is", "data", "src", "module"];
+    let prefixes = ["", "model:", "change:", "worklet:", "data:", "class:", "style:", "bind:", "mut-bind:", "catch:", "capture-bind:",
+                    "capture-mut-bind:", "capture-catch:", "mark:", "generic:", "extra-attr:", "slot:", "foo:", "wx:", "a:b:"];
+    for el in ["view", "slot"] {
+        for p in prefixes {
+            for n in names {
+                if p == "wx:" && ["if", "for", "key", "else", "elif"].contains(&n) {
+                    continue;
+                }
+                let raw = format!("{}{}", p, n);
+                let val = match p {
+                    "worklet:" | "generic:" | "extra-attr:" => "v".to_string(),
+                    "slot:" => "".to_string(),
+                    "change:" | "bind:" | "catch:" => "{{f}}".to_string(),
+                    _ => "{{a}}".to_string(),
+                };
+                let attr = if val.is_empty() { raw.clone() } else { format!("{}=\"{}\"", raw, val) };
+                let src = format!("<c><{} {}/></c>", el, attr);
+                let mut tg = TmplGroup::new();
+                let diags = tg.add_tmpl("p", &src);
+                let max_level = diags.iter().map(|d| d.kind.level() as u8).max().unwrap_or(0);
+                let bundle = tg.get_tmpl_gen_object_groups().unwrap_or_default();
+                let job = json!({"kind": "attrroute", "el": el, "raw": raw, "src": src, "bundle": bundle, "max_level": max_level,
+                                 "diags": diags.iter().map(|d| format!("{:?}", d.kind)).collect::<Vec<_>>()});
+                out.raw(&job.to_string());
+            }
+        }
+    }
+}
